@@ -39,7 +39,7 @@ type hashmap struct {
 // makeMap returns an empty initialized map of key type kt,
 // preallocating space for reserve elements.
 func makeMap(kt types.Type, reserve int64) value {
-	if isStringType(kt) {
+	if symKeyMapType(kt) {
 		return &smap{idx: map[string]int{}}
 	}
 	if usesBuiltinMap(kt) {
